@@ -3031,6 +3031,12 @@ func (l *channelLink) processRemoteAdds(fwdPkg *channeldb.FwdPkg) {
 	// settle/fail update.
 	unackedAdds := make([]*lnwire.UpdateAddHTLC, 0, len(fwdPkg.Adds))
 
+	// unackedIdx records, for every entry of unackedAdds, the index of
+	// that add within fwdPkg.Adds. The forwarding package's AddRefs and
+	// filters are keyed by this original index, not by the position in
+	// the filtered slice.
+	unackedIdx := make([]uint16, 0, len(fwdPkg.Adds))
+
 	for i, update := range fwdPkg.Adds {
 		// If this index is already found in the ack filter, the
 		// response to this forwarding decision has already been
@@ -3060,6 +3066,7 @@ func (l *channelLink) processRemoteAdds(fwdPkg *channeldb.FwdPkg) {
 
 			decodeReqs = append(decodeReqs, req)
 			unackedAdds = append(unackedAdds, msg)
+			unackedIdx = append(unackedIdx, uint16(i))
 		}
 	}
 
@@ -3083,7 +3090,7 @@ func (l *channelLink) processRemoteAdds(fwdPkg *channeldb.FwdPkg) {
 	var switchPackets []*htlcPacket
 
 	for i, update := range unackedAdds {
-		idx := uint16(i)
+		idx := unackedIdx[i]
 		sourceRef := fwdPkg.SourceRef(idx)
 		add := *update
 
